@@ -93,6 +93,33 @@ prop("C16",
      )
 
 
+# ---------------------------------------------------------------------------------------------
+# C19 SoftCollection
+prop("C19",
+     family="softcol",
+     mc=lambda tier: [("MC_SoftCollection", _t(tier, "MC_SoftCollection_quick.cfg", "MC_SoftCollection_thorough.cfg"))],
+     gen=lambda tier: ("MC_SoftCollection", _t(tier, "Gen_SoftCollection_quick.cfg", "Gen_SoftCollection_thorough.cfg")),
+     driver=lambda tier, seed, gen, out: ["softcol", "-gen", gen, "-out", out, "-seed", str(seed)] +
+     _t(tier, ["-sample", "500", "-walks", "60", "-depth", "40"],
+        ["-sample", "12000", "-variants", "2", "-walks", "1500", "-depth", "60"]),
+     trace=("Trace_SoftCollection", "Trace_SoftCollection.cfg"),
+     required=["SetType:ok", "Add:ok", "Add:soft", "Add:wrap", "Remove:ok", "AddAttr:ok", "AddAttr:err", "AddRel:ok",
+               "AddRel:err", "SetSrc:ok"],
+     level_text="TLC explores the full state graph of the SoftCollection specification (collection type, ordered "
+                "snapshots, four source resources: same type, narrower, wider with a duplicate id, conflicting "
+                "definitions) and checks typing of stored items, order preservation, snapshot stability and "
+                "all-or-nothing; reachable states (sampled in the quick tier) are rebuilt in the real SoftCollection "
+                "by replaying their history, every operation of the alphabet is applied, and TLC's monitor judges "
+                "the projected collection (type, Len, At(-1..Len+1), Resource(id), every stored field) after each call. "
+                "Each case is instantiated with soft or struct-wrapped sources, a rotation of the 13 non-bool "
+                "attribute kinds and one of three value tables.",
+     level_note="Bounded: <=2 (quick) / <=3 (thorough) stored items, fixed field names. AddAttr with the name of an "
+                "existing relationship (or the reverse) is outside the domain. Values are representatives from "
+                "concretisation tables (boundary-heavy table 0, seeded tables 1-2).",
+     assumptions=["the collection's type has been set", "one name is never both an attribute and a relationship"],
+     )
+
+
 def run(pid, tier, seed):
     P = PROPS[pid]
     if "run" in P:
